@@ -1008,7 +1008,18 @@ impl<'a> AG<'a> {
         (0..n).map(|_| A(self.rng.pick(ATTR_NAMES).to_string(), if self.rng.chance(35) { E::True } else { self.expr(1) })).collect()
     }
     fn cond(&mut self) -> C {
-        match self.rng.below(3) { 0 => C::Some(self.expr(1), (0, 0)), 1 => C::None(self.expr(1), (0, 0)), _ => C::Bool(self.expr(1), (0, 0)) }
+        match self.rng.below(4) {
+            0 => C::Some(self.expr(1), (0, 0)),
+            1 => C::None(self.expr(1), (0, 0)),
+            2 => C::Bool(self.expr(1), (0, 0)),
+            // a plain condition that BEGINS with the text of the keywords `some` / `none` (word boundary of consume_keyword)
+            _ => {
+                let name = self.rng.pick(&["something", "none_left", "some_thing", "nonex", "somex", "nonesuch", "some-", "none1", "some_", "nones", "someé"]).to_string();
+                let mut e = E::Unscoped(name, (0, 0));
+                if self.rng.chance(30) { e = E::Scoped(Box::new(e), self.ident(), (0, 0)); }
+                C::Bool(e, (0, 0))
+            }
+        }
     }
     fn conds(&mut self) -> Vec<C> { let n = *self.rng.pick(&[1, 1, 1, 2, 3]); (0..n).map(|_| self.cond()).collect() }
     fn block(&mut self, d: usize) -> Vec<S> {
